@@ -198,7 +198,7 @@ pub fn object_heavy(base: &Config, salt: u64) -> Config {
     let mut rng = Rng::new(salt);
     let steps = 10 + rng.below(50) as usize;
     // recipes: operand set-ups followed by the typed opcode that consumes them
-    const RECIPES: [&[&str]; 46] = [
+    const RECIPES: [&[&str]; 54] = [
         // containers that hold a float (NaN with saturated entropy) and are then stored into themselves
         &["MARK", "BINFLOAT", "LIST", "DUP", "APPEND"],
         &["MARK", "FLOAT", "LIST", "DUP", "TUPLE1", "APPEND"],
@@ -251,6 +251,16 @@ pub fn object_heavy(base: &Config, salt: u64) -> Config {
         &["EMPTY_LIST", "DUP", "APPEND"],
         &["EMPTY_LIST", "MEMOIZE", "POP", "BINGET", "NONE", "APPEND"],
         &["EMPTY_DICT", "PUT", "GET", "NONE", "NONE", "SETITEM"],
+        // one object stored into the memo twice (through an alias, or back to back), then another store:
+        // every store takes a fresh key on the real machine
+        &["NONE", "DUP", "MEMOIZE", "POP", "MEMOIZE", "BINPUT", "MEMOIZE"],
+        &["EMPTY_LIST", "DUP", "MEMOIZE", "APPEND", "MEMOIZE", "LONG_BINPUT"],
+        &["EMPTY_LIST", "DUP", "BINPUT", "POP", "BINPUT", "BINPUT"],
+        &["NONE", "DUP", "PUT", "POP", "PUT", "PUT"],
+        &["EMPTY_DICT", "MEMOIZE", "MEMOIZE", "BINPUT", "PUT"],
+        &["EMPTY_TUPLE", "BINPUT", "DUP", "LONG_BINPUT", "POP", "BINPUT"],
+        &["NONE", "MEMOIZE", "DUP", "TUPLE2", "MEMOIZE", "BINGET", "MEMOIZE", "BINPUT"],
+        &["EMPTY_SET", "DUP", "MEMOIZE", "POP", "MARK", "NONE", "ADDITEMS", "MEMOIZE", "MEMOIZE"],
     ];
     let mut queue: Vec<u8> = Vec::new();
     // a third of the cases draw their arguments from saturated (all-0xFF) entropy: NaN floats, -1 ints
@@ -359,6 +369,7 @@ where
         (b't', b'('),
     ];
     let pairs = deep_pairs();
+    // (proto, x, y, steps); x == 0 marks a cycle case with y = index into DEEP_CYCLES
     let mut cases: Vec<(u8, u8, u8, usize)> = Vec::new();
     for &t in sizes {
         for proto in 0..6u8 {
@@ -367,12 +378,18 @@ where
             }
         }
     }
+    for proto in 0..6u8 {
+        for c in 0..DEEP_CYCLES.len() {
+            cases.push((proto, 0, c as u8, sizes[0]));
+        }
+    }
     let mut rng = Rng::new(seed ^ 0xDEE9);
     for i in 0..n_sampled {
         let (x, y) = pairs[rng.below(pairs.len() as u64) as usize];
         cases.push(((5 - i % 6) as u8, x, y, sizes[0]));
     }
-    par_run(
+    par_run_stack(
+        1 << 30,
         cases.len(),
         Acc::new,
         |i, acc| {
@@ -382,7 +399,12 @@ where
                 buf: i % 3 == 0,
                 ..Config::default_for(proto, Entropy::Bytes(vec![]))
             };
-            let st = steer_long(&base, t, i % 2 == 1, 48, greedy_policy(x, y));
+            let st = if x == 0 {
+                acc.count("deep_cycle_cases", 1);
+                steer_long(&base, t, i % 2 == 1, 64, cycle_policy(DEEP_CYCLES[y as usize]))
+            } else {
+                steer_long(&base, t, i % 2 == 1, 48, greedy_policy(x, y))
+            };
             let res = run_case(&st.cfg, Some(trace));
             acc.count("deep_cases", 1);
             acc.count("deep_steering_runs", st.runs as u64);
@@ -392,6 +414,7 @@ where
             }
             if let Outcome::Ok(b) = &res.outcome {
                 if let Ok(lx) = lex(b) {
+                    let x = if x == 0 { DEEP_CYCLES[y as usize][0] } else { x };
                     let nx = lx.ins.iter().filter(|k| k.op.code == x).count();
                     acc.max("max_deep_occurrences_of_one_opcode", nx as u64);
                     if nx > 4096 {
@@ -1264,7 +1287,7 @@ pub fn check_c15(cfg: &Config, res: &CaseResult, acc: &mut Acc) {
     // every emitted value must have passed through the mutation layer: compare the number of
     // Draw events per kind with the value opcodes of that family in the output (safe mode only:
     // unsafe TypeConfusion replaces opcodes after the fact)
-    if viol.is_none() && rate == 1.0 && !cfg.unsafe_mut {
+    if viol.is_none() && rate == 1.0 && !cfg.unsafe_mut && !cfg.mutator_flag() {
         if let Ok(l) = lex(bytes) {
             let fam = |names: &[&str]| l.ins.iter().filter(|i| names.contains(&i.op.name)).count() as u64;
             let emitted = [
@@ -1330,6 +1353,7 @@ pub fn c15(thorough: bool, seed: u64) -> CheckOutput {
     sp.rates = vec![0.0, 1.0];
     sp.ranges = vec![(10, 50), (60, 300), (2, 9), (0, 1)];
     sp.bytes_mode_share = 60;
+    sp.flip_share = 25;
     let tr = verif::Config {
         snapshots: false,
         choices: false,
